@@ -43,7 +43,7 @@ func (s *vc57Store) LoadUnpacked(_ context.Context, t restic.FileType, id restic
 }
 
 func TestVerif_C57(t *testing.T) {
-	res := kit.NewResult("one case = one call of the real data.FindSnapshot(store, string) on a store holding a subset (<= 4) of the 8 crafted snapshot IDs; strings = prefixes of listed lengths of every crafted ID, full IDs present and absent, over-long, non-hex; distinct by (set, string); non-trivial when at least one snapshot matches")
+	res := kit.NewResult("one case = one call of the real data.FindSnapshot(store, string) on a store holding a subset (<= 4) of the 8 crafted snapshot IDs; strings = prefixes of listed lengths of every crafted ID, full IDs present and absent, over-long, non-hex; a second family: subsets (<= 4) of 6 snapshot IDs sharing 7, 8, 9 and 16 leading hex characters x prefixes of length 0,1,7,8,9,10,11,15,16,17,63,64; each question also goes through restic.MemorizeList's copy of the listing (FindSnapshot on the memorized lister) and through SnapshotFilter.FindAll with the string as the only explicit id (second family: always; first: every 3rd); distinct by (family, set, way, string); non-trivial when at least one snapshot matches")
 	defer res.Save("")
 	recs := kit.NewNDJSON("recs.ndjson")
 	defer recs.Close()
@@ -70,90 +70,147 @@ func TestVerif_C57(t *testing.T) {
 	add("c")
 	add(" ")
 	r := kit.Rand(5757)
-	nsets := kit.Pick(40, 163)
 	ctx := context.Background()
 	tree := restic.Hash([]byte("t"))
-	for si := 0; si < nsets; si++ {
-		// subsets of <= 4 ids: thorough enumerates all 163, quick draws by seed
-		var set []int
-		if kit.Thorough() {
-			cnt := -1
-			for m := 0; m < 256 && set == nil; m++ {
-				var s []int
-				for i := 0; i < 8; i++ {
-					if m&(1<<i) != 0 {
-						s = append(s, i)
-					}
-				}
-				if len(s) <= 4 {
-					cnt++
-					if cnt == si {
-						set = append([]int{}, s...)
-						if set == nil {
-							set = []int{}
-						}
-					}
-				}
-			}
-		} else {
-			for i := 0; i < 8; i++ {
-				if r.Intn(8) < 3 {
-					set = append(set, i)
-				}
-			}
-			if len(set) > 4 {
-				set = set[:4]
-			}
+	classify := func(err error) string {
+		var multi *restic.MultipleIDMatchesError
+		var noid *restic.NoIDByPrefixError
+		switch {
+		case err == nil:
+			return "none"
+		case errors.As(err, &multi):
+			return "multiple"
+		case errors.As(err, &noid):
+			return "noid"
 		}
-		st := &vc57Store{files: map[restic.ID][]byte{}}
-		names := []string{}
-		for _, k := range set {
-			id, err := restic.ParseID(u[k])
-			if err != nil {
-				res.Problem("crafted id: %v", err)
-				return
-			}
-			b, _ := json.Marshal(&Snapshot{Time: time.Unix(1700000000+int64(k), 0).UTC(), Tree: &tree, Hostname: "h", Paths: []string{"/p"}})
-			st.files[id] = b
-			st.order = append(st.order, id)
-		}
-		rand.New(rand.NewSource(kit.Seed()*31+int64(si))).Shuffle(len(st.order), func(i, j int) { st.order[i], st.order[j] = st.order[j], st.order[i] })
-		for _, id := range st.order {
-			names = append(names, id.String())
-		}
-		for _, p := range prefixes {
-			got, class := "", ""
-			func() {
-				defer func() {
-					if rec := recover(); rec != nil {
-						class, got = "panic", ""
-					}
-				}()
-				sn, _, err := FindSnapshot(ctx, st, st, p)
-				var multi *restic.MultipleIDMatchesError
-				var noid *restic.NoIDByPrefixError
-				switch {
-				case err == nil:
-					class = "none"
-					got = sn.ID().String()
-				case errors.As(err, &multi):
-					class = "multiple"
-				case errors.As(err, &noid):
-					class = "noid"
-				default:
-					class = "other"
+		return "other"
+	}
+	// one question, one way: FindSnapshot on the live listing, FindSnapshot on restic.MemorizeList's copy,
+	// SnapshotFilter.FindAll with the string as the only explicit id (memorizes the listing itself)
+	ask := func(via string, st *vc57Store, names []string, p string, key string) {
+		got, class := "", ""
+		func() {
+			defer func() {
+				if rec := recover(); rec != nil {
+					class, got = "panic", ""
 				}
 			}()
-			recs.Write(map[string]any{"via": "FindSnapshot", "ids": names, "prefix": p, "res": got, "err": class})
-			matches := 0
-			for _, nm := range names {
-				if strings.HasPrefix(nm, p) {
-					matches++
+			switch via {
+			case "FindSnapshot":
+				sn, _, err := FindSnapshot(ctx, st, st, p)
+				if class = classify(err); err == nil {
+					got = sn.ID().String()
+				}
+			case "FindSnapshot-memorized":
+				m, err := restic.MemorizeList(ctx, st, restic.SnapshotFile)
+				if err != nil {
+					res.Problem("MemorizeList: %v", err)
+					return
+				}
+				sn, _, err := FindSnapshot(ctx, m, st, p)
+				if class = classify(err); err == nil {
+					got = sn.ID().String()
+				}
+			case "FindAll":
+				calls := 0
+				err := (&SnapshotFilter{}).FindAll(ctx, st, st, []string{p}, func(_ string, sn *Snapshot, err error) error {
+					calls++
+					if class = classify(err); err == nil {
+						got = sn.ID().String()
+					}
+					return nil
+				})
+				if err != nil || calls != 1 {
+					res.Problem("FindAll([%q]): err=%v, %d callbacks", p, err, calls)
+					class = ""
 				}
 			}
-			res.Case(fmt.Sprintf("%v|%q", set, p), matches > 0)
-			res.Count("outcome_"+class, 1)
+		}()
+		if class == "" {
+			return
+		}
+		recs.Write(map[string]any{"via": via, "ids": names, "prefix": p, "res": got, "err": class})
+		matches := 0
+		for _, nm := range names {
+			if strings.HasPrefix(nm, p) {
+				matches++
+			}
+		}
+		res.Case(key+"|"+via+fmt.Sprintf("|%q", p), matches > 0)
+		res.Count("outcome_"+class, 1)
+		res.Count("via_"+via, 1)
+	}
+	subsets := func(n, max int) [][]int {
+		out := [][]int{}
+		for m := 0; m < 1<<n; m++ {
+			s := []int{}
+			for i := 0; i < n; i++ {
+				if m&(1<<i) != 0 {
+					s = append(s, i)
+				}
+			}
+			if len(s) <= max {
+				out = append(out, s)
+			}
+		}
+		return out
+	}
+	drive := func(uni int, u []string, prefixes []string, sets [][]int) {
+		for si, set := range sets {
+			st := &vc57Store{files: map[restic.ID][]byte{}}
+			names := []string{}
+			for _, k := range set {
+				id, err := restic.ParseID(u[k])
+				if err != nil {
+					res.Problem("crafted id: %v", err)
+					return
+				}
+				b, _ := json.Marshal(&Snapshot{Time: time.Unix(1700000000+int64(k), 0).UTC(), Tree: &tree, Hostname: "h", Paths: []string{"/p"}})
+				st.files[id] = b
+				st.order = append(st.order, id)
+			}
+			rand.New(rand.NewSource(kit.Seed()*31+int64(si)+int64(uni)*7919)).Shuffle(len(st.order), func(i, j int) { st.order[i], st.order[j] = st.order[j], st.order[i] })
+			for _, id := range st.order {
+				names = append(names, id.String())
+			}
+			key := fmt.Sprintf("%d%v", uni, set)
+			for _, p := range prefixes {
+				ask("FindSnapshot", st, names, p, key)
+				if uni == 2 || r.Intn(3) == 0 {
+					ask("FindSnapshot-memorized", st, names, p, key)
+				}
+				if p != "latest" && !strings.Contains(p, ":") && (uni == 2 || r.Intn(3) == 0) {
+					ask("FindAll", st, names, p, key)
+				}
+			}
 		}
 	}
+	// family 1: subsets of <= 4 of the 8 crafted ids: thorough enumerates all 163, quick draws 40 by seed
+	sets := subsets(8, 4)
+	if !kit.Thorough() {
+		r.Shuffle(len(sets), func(i, j int) { sets[i], sets[j] = sets[j], sets[i] })
+		sets = sets[:40]
+	}
+	drive(1, u, prefixes, sets)
+	// family 2: ids sharing 7, 8, 9 and 16 leading hex characters (8 = length of the printed short id)
+	u2 := []string{"1234567800000000" + strings.Repeat("a", 48), "123456781" + strings.Repeat("b", 55), "1234567801" + strings.Repeat("c", 54),
+		"1234567800000000" + strings.Repeat("d", 48), "12345679" + strings.Repeat("e", 56), "92345678" + strings.Repeat("0", 56)}
+	var p2 []string
+	for _, id := range u2 {
+		for _, l := range []int{0, 1, 7, 8, 9, 10, 11, 15, 16, 17, 63, 64} {
+			if !seen[id[:l]] || l == 0 || l == 1 {
+				if !seen["2|"+id[:l]] {
+					seen["2|"+id[:l]] = true
+					p2 = append(p2, id[:l])
+				}
+			}
+		}
+	}
+	sets2 := subsets(6, 4)
+	if !kit.Thorough() {
+		r.Shuffle(len(sets2), func(i, j int) { sets2[i], sets2[j] = sets2[j], sets2[i] })
+		sets2 = sets2[:30]
+	}
+	drive(2, u2, p2, sets2)
 	res.Sample(map[string]any{"ids": []string{u[0], u[1]}, "string": u[0], "expect": "the snapshot " + u[0][:8]})
 }
